@@ -11,7 +11,7 @@ import numpy as np
 PROP = "C10"
 LEVEL = "exploration"
 VARIANTS = ("omp",)
-CASE_TIMEOUT = 300
+CASE_TIMEOUT = 1200
 RULE = ("kind synthetic: random (frequencies, weights) meshes fed through a stub Mesh object x temperature grids spanning h nu/kT from 1e-6 to 1e5 x cutoff "
         "(none | inside the spectrum) x imaginary modes (excluded | pretend_real) x band_indices x projection x classical x lang C|Py; "
         "oracles: closed forms, C == Py, T=0 limits, finiteness, signs/monotonicity/Dulong-Petit bound, S=-dF/dT and C_V=T dS/dT by central differences with two steps; "
